@@ -47,6 +47,7 @@ type Obligation struct {
 	Expect   string // "unsat" (normal) or "sat" (vacuity cover)
 	Inputs   []InputTerm
 	HasQuant bool
+	fc       *FuncCtx
 	// results
 	Status string // proved | failed | unknown | timeout
 	Solver string
@@ -96,6 +97,8 @@ type FuncCtx struct {
 	permitBareRange bool
 	ceUnroll  int
 	defs      map[string]string
+	views     map[string]string
+	viewDefs  [][2]string
 	inputArrs []string
 }
 
@@ -227,7 +230,7 @@ func (st *State) oblige(kind, detail, goal string, pos token.Pos) {
 	if len(st.guard) > 0 {
 		facts = append(facts, st.guard...)
 	}
-	ob := &Obligation{Name: base, Kind: kind, Func: fc.Name, Decls: append([]string(nil), fc.decls...), Facts: facts, Goal: goal, Detail: detail, Expect: "unsat", Inputs: fc.inputs}
+	ob := &Obligation{Name: base, Kind: kind, Func: fc.Name, Decls: append([]string(nil), fc.decls...), Facts: facts, Goal: goal, Detail: detail, Expect: "unsat", Inputs: fc.inputs, fc: fc}
 	if pos.IsValid() {
 		p := fc.Pkg.Fset.Position(pos)
 		ob.Pos = fmt.Sprintf("%s:%d", p.Filename, p.Line)
